@@ -297,9 +297,11 @@ fn message(id: &str, size: usize, shape: u64) -> Vec<u8> {
 /// the client always writes CRLF "." CRLF after the content: what the server logs (without that CRLF) is the message itself
 fn fnv_msg(m: &[u8]) -> String { fnv(m) }
 
-fn envelope(id: &str, nrcpt: usize) -> Envelope {
+fn envelope(id: &str, nrcpt: usize, utf8_rcpt: bool) -> Envelope {
     let from = format!("{id}@s.example").parse().unwrap();
-    let to = (0..nrcpt.max(1)).map(|i| format!("r{i}-{id}@d.example").parse().unwrap()).collect();
+    // every second recipient is the one before it with another letter case in the local part: two mailboxes (RFC 5321 2.4)
+    let mut to: Vec<lettre::Address> = (0..nrcpt.max(1)).map(|i| if i % 2 == 1 { format!("R{}-{id}@d.example", i - 1) } else { format!("r{i}-{id}@d.example") }.parse().unwrap()).collect();
+    if utf8_rcpt { to.push(format!("\u{fc}-{id}@d.example").parse().unwrap()); }
     Envelope::new(Some(from), to).unwrap()
 }
 
@@ -378,14 +380,14 @@ fn sync_op(tr: &Mutex<Option<SmtpTransport>>, who: &str, idx: usize, op: &Value)
         ("send", Some(t)) => {
             let id = op["id"].as_str().unwrap();
             let msg = message(id, op["size"].as_u64().unwrap_or(0) as usize, op["shape"].as_u64().unwrap_or(0));
-            let env = envelope(id, op["nrcpt"].as_u64().unwrap_or(1) as usize);
+            let env = envelope(id, op["nrcpt"].as_u64().unwrap_or(1) as usize, op["utf8rcpt"] == true);
             match t.send_raw(&env, &msg) {
                 Ok(r) => json!({"ok": u16::from(r.code()), "hash": fnv_msg(&msg)}),
                 Err(e) => json!({"err": crate::pure::err_s(&e), "hash": fnv_msg(&msg)}),
             }
         }
         ("test", Some(t)) => match t.test_connection() { Ok(b) => json!({"ok": b}), Err(e) => json!({"err": crate::pure::err_s(&e)}) },
-        ("shutdown", Some(t)) => { t.shutdown(); json!("unit") }
+        ("shutdown", Some(t)) => { lettre::Transport::shutdown(&t); json!("unit") }     // (through the trait, as generic code calls it)
         ("debug", Some(t)) => json!({"debug": debug_count(&format!("{t:?}"))}),
         ("wait_idle", Some(t)) => {
             let want = op["n"].as_u64().unwrap_or(0).to_string();
@@ -417,14 +419,14 @@ async fn tokio_op(tr: &Mutex<Option<AsyncSmtpTransport<Tokio1Executor>>>, who: &
         ("send", Some(t)) => {
             let id = op["id"].as_str().unwrap();
             let msg = message(id, op["size"].as_u64().unwrap_or(0) as usize, op["shape"].as_u64().unwrap_or(0));
-            let env = envelope(id, op["nrcpt"].as_u64().unwrap_or(1) as usize);
+            let env = envelope(id, op["nrcpt"].as_u64().unwrap_or(1) as usize, op["utf8rcpt"] == true);
             match t.send_raw(&env, &msg).await {
                 Ok(r) => json!({"ok": u16::from(r.code()), "hash": fnv_msg(&msg)}),
                 Err(e) => json!({"err": crate::pure::err_s(&e), "hash": fnv_msg(&msg)}),
             }
         }
         ("test", Some(t)) => match t.test_connection().await { Ok(b) => json!({"ok": b}), Err(e) => json!({"err": crate::pure::err_s(&e)}) },
-        ("shutdown", Some(t)) => { t.shutdown().await; json!("unit") }
+        ("shutdown", Some(t)) => { lettre::AsyncTransport::shutdown(&t).await; json!("unit") }
         ("debug", Some(t)) => json!({"debug": debug_count(&format!("{t:?}"))}),
         ("wait_idle", Some(t)) => {
             let want = op["n"].as_u64().unwrap_or(0).to_string();
